@@ -1,6 +1,6 @@
 (* C09 — proofs about the line search and the L-BFGS driver: sufficient decrease for EVERY objective,
    monotonicity of the objective along any run of descent directions, first step = steepest descent. *)
-From Coq Require Import List ZArith Bool Reals Lra Lia.
+From Coq Require Import List ZArith Bool Reals Lra Lia Arith.
 From SC Require Import Base.Num C09.Model.
 Import ListNotations.
 Local Open Scope R_scope.
@@ -47,22 +47,39 @@ Section AnyOps.
   Lemma bt_loop_exit P phi f0 df0 fuel : forall first a1 a2 fx0 fx1 a fx,
     fx1 = phi a2 ->
     bt_loop O P phi f0 df0 fuel first a1 a2 fx0 fx1 = Some (a, fx) ->
-    oltb O (oadd O f0 (omul O (omul O (bt_c1 P) a) df0)) fx = false /\ fx = phi a.
+    (oltb O (oadd O f0 (omul O (omul O (bt_c1 P) a) df0)) fx = false /\ fx = phi a) \/
+    (a = o0 O /\ fx = f0).
   Proof.
     induction fuel as [|k IH]; intros first a1 a2 fx0 fx1 a fx Hphi E; cbn in E.
-    - destruct (oltb O (oadd O f0 (omul O (omul O (bt_c1 P) a2) df0)) fx1) eqn:Et; [discriminate|].
-      inversion E; subst. split; [exact Et | reflexivity].
+    - destruct (oltb O (oadd O f0 (omul O (omul O (bt_c1 P) a2) df0)) fx1) eqn:Et.
+      + inversion E; subst. right. split; reflexivity.
+      + inversion E; subst. left. split; [exact Et | reflexivity].
     - destruct (oltb O (oadd O f0 (omul O (omul O (bt_c1 P) a2) df0)) fx1) eqn:Et.
       + eapply IH; [|exact E]. reflexivity.
-      + inversion E; subst. split; [exact Et | reflexivity].
+      + inversion E; subst. left. split; [exact Et | reflexivity].
   Qed.
 
-  (* A normal return of Backtracking::search — on binary64 as well as on R, for every objective, every
-     parameter setting, both interpolation orders — hands back a step at which the loop test
-     `f(a) > f0 + c1*a*df0` is false, together with the objective value at that step. *)
+  (* Backtracking::search never fails (after repair 78b374f) ... *)
+  Lemma bt_loop_total P phi f0 df0 fuel : forall first a1 a2 fx0 fx1,
+    exists a fx, bt_loop O P phi f0 df0 fuel first a1 a2 fx0 fx1 = Some (a, fx).
+  Proof.
+    induction fuel as [|k IH]; intros first a1 a2 fx0 fx1; cbn.
+    - destruct (oltb O _ _); eauto.
+    - destruct (oltb O _ _); [apply IH | eauto].
+  Qed.
+  Lemma bt_search_total P phi alpha f0 df0 : exists a fx, bt_search O P phi alpha f0 df0 = Some (a, fx).
+  Proof.
+    unfold bt_search. destruct (bt_finite O (bt_max_inf P) phi alpha alpha (phi alpha)) as [[a1 a2] fx1].
+    apply bt_loop_total.
+  Qed.
+
+  (* ... and what it returns — on binary64 as well as on R, for every objective, every parameter setting, both
+     interpolation orders — is either a step at which the loop test `f(a) > f0 + c1*a*df0` is false, together
+     with the objective value at that step, or (iteration budget exhausted) the zero step with the value f0. *)
   Lemma bt_search_exit P phi alpha f0 df0 a fx :
     bt_search O P phi alpha f0 df0 = Some (a, fx) ->
-    oltb O (oadd O f0 (omul O (omul O (bt_c1 P) a) df0)) fx = false /\ fx = phi a.
+    (oltb O (oadd O f0 (omul O (omul O (bt_c1 P) a) df0)) fx = false /\ fx = phi a) \/
+    (a = o0 O /\ fx = f0).
   Proof.
     unfold bt_search.
     destruct (bt_finite O (bt_max_inf P) phi alpha alpha (phi alpha)) as [[a1 a2] fx1] eqn:Ef.
@@ -77,33 +94,38 @@ Proof. destruct fuel; [reflexivity|]. cbn [bt_finite]. rewrite is_finite_R. refl
 
 Lemma bt_loop_pos P phi f0 df0 fuel : forall first a1 a2 fx0 fx1 a fx,
   0 < bt_plo P -> 0 < a2 ->
-  bt_loop ROps P phi f0 df0 fuel first a1 a2 fx0 fx1 = Some (a, fx) -> 0 < a.
+  bt_loop ROps P phi f0 df0 fuel first a1 a2 fx0 fx1 = Some (a, fx) -> 0 < a \/ (a = 0 /\ fx = f0).
 Proof.
   induction fuel as [|k IH]; intros first a1 a2 fx0 fx1 a fx Hplo Ha E; cbn in E.
-  - destruct (Rltb _ _); [discriminate|]. inversion E; subst. lra.
+  - destruct (Rltb _ _); inversion E; subst; [right; split; reflexivity | left; lra].
   - destruct (Rltb (f0 + bt_c1 P * a2 * df0) fx1) eqn:Et.
     + set (a_tmp := if negb (bt_third P) || first then _ else _) in E.
       set (a2' := rmax ROps (rmin ROps a_tmp (a2 * bt_phi P)) (a2 * bt_plo P)) in E.
       assert (H1 : 0 < a2') by (pose proof (rmax_R_ge_r (rmin ROps a_tmp (a2 * bt_phi P)) (a2 * bt_plo P)); unfold a2'; nra).
       exact (IH false a2 a2' fx1 (phi a2') a fx Hplo H1 E).
-    + inversion E; subst. exact Ha.
+    + inversion E; subst. left. exact Ha.
 Qed.
 
-(* backtracking_armijo: for EVERY objective phi, every c1, phi-factor, iteration limits and both orders:
-   a normal return satisfies the sufficient-decrease (Armijo) inequality at a positive step, hence does not
-   increase the objective whenever the directional derivative is <= 0 (and c1 >= 0). *)
+(* backtracking_armijo: for EVERY objective phi, every c1, phi-factor, iteration limits and both orders the
+   search returns, and what it returns is either a positive step satisfying the sufficient-decrease (Armijo)
+   inequality, or the zero step with the value f0 it was given; in both cases the returned value does not
+   exceed f0 whenever the directional derivative is <= 0 (and c1 >= 0). *)
 Lemma backtracking_armijo P phi alpha f0 df0 a fx :
   0 < alpha -> 0 < bt_plo P ->
   bt_search ROps P phi alpha f0 df0 = Some (a, fx) ->
-  fx = phi a /\ 0 < a /\ fx <= f0 + bt_c1 P * a * df0 /\ (0 <= bt_c1 P -> df0 <= 0 -> fx <= f0).
+  ((0 < a /\ fx = phi a /\ fx <= f0 + bt_c1 P * a * df0) \/ (a = 0 /\ fx = f0)) /\
+  (0 <= bt_c1 P -> df0 <= 0 -> fx <= f0).
 Proof.
   intros Halpha Hplo E.
-  destruct (bt_search_exit ROps P phi alpha f0 df0 a fx E) as [Ht Hfx]. cbn in Ht.
-  apply Rltb_false in Ht.
-  assert (Hpos : 0 < a).
-  { unfold bt_search in E. rewrite bt_finite_R in E. eapply bt_loop_pos; [exact Hplo| |exact E]. exact Halpha. }
-  repeat split; try assumption.
-  intros Hc Hd. assert (bt_c1 P * a * df0 <= 0) by (assert (0 <= bt_c1 P * a) by nra; nra). lra.
+  assert (H : (0 < a /\ fx = phi a /\ fx <= f0 + bt_c1 P * a * df0) \/ (a = 0 /\ fx = f0)).
+  { assert (Hpos : 0 < a \/ (a = 0 /\ fx = f0)).
+    { unfold bt_search in E. rewrite bt_finite_R in E. eapply bt_loop_pos; [exact Hplo| |exact E]. exact Halpha. }
+    destruct Hpos as [Hpos|Hz]; [|right; exact Hz].
+    destruct (bt_search_exit ROps P phi alpha f0 df0 a fx E) as [[Ht Hfx]|[Ha0 Hf0]].
+    - cbn in Ht. apply Rltb_false in Ht. left. repeat split; assumption.
+    - cbn in Ha0. lra. }
+  split; [exact H|]. intros Hc Hd. destruct H as [[Hpos [_ Hle]]|[_ ->]]; [|lra].
+  assert (bt_c1 P * a * df0 <= 0) by (assert (0 <= bt_c1 P * a) by nra; nra). lra.
 Qed.
 
 (* ------------------------------------------------------------------ vectors over R *)
@@ -111,6 +133,72 @@ Lemma vadd_comm_R (a b : list R) : vadd ROps a b = vadd ROps b a.
 Proof.
   unfold vadd. revert b. induction a as [|x a IH]; intros [|y b]; cbn; try reflexivity.
   rewrite IH. f_equal. lra.
+Qed.
+
+Lemma map2_length {A B C} (f : A -> B -> C) a : forall b, length (map2 f a b) = Nat.min (length a) (length b).
+Proof. induction a as [|x a IH]; intros [|y b]; cbn; auto. Qed.
+Lemma vadd_length (a b : list R) : length (vadd ROps a b) = Nat.min (length a) (length b).
+Proof. apply map2_length. Qed.
+Lemma vsub_length (a b : list R) : length (vsub ROps a b) = Nat.min (length a) (length b).
+Proof. apply map2_length. Qed.
+Lemma vscale_length (a : list R) c : length (vscale ROps a c) = length a.
+Proof. apply map_length. Qed.
+Lemma upd_length_gen {A} (w : list A) j t : length (upd w j t) = length w.
+Proof. revert j. induction w as [|h w IH]; intros [|j]; cbn; auto. Qed.
+Lemma vadd_zero_step (x s : list R) : length s = length x -> vadd ROps x (vscale ROps s 0) = x.
+Proof.
+  revert s. induction x as [|h x IH]; intros [|k s] H; cbn in *; try reflexivity; try discriminate.
+  f_equal; [lra|]. apply IH. lia.
+Qed.
+
+(* a history of m vectors of length n *)
+Definition hist (n m : nat) (h : list (list R)) : Prop := length h = m /\ Forall (fun v => length v = n) h.
+Lemma hist_nth n m h i : hist n m h -> (i < m)%nat -> length (nth i h []) = n.
+Proof.
+  intros [Hl Hf] Hi. rewrite Forall_forall in Hf. apply Hf. apply nth_In. lia.
+Qed.
+Lemma hist_upd n m h i v : hist n m h -> length v = n -> hist n m (upd h i v).
+Proof.
+  intros [Hl Hf] Hv. split; [rewrite upd_length_gen; exact Hl|]. clear Hl.
+  revert i. induction Hf as [|w h Hw Hf IH]; intros [|i]; cbn; constructor; auto.
+Qed.
+Lemma hist_repeat n m x : length x = n -> hist n m (repeat x m).
+Proof.
+  intros H. split; [apply repeat_length|]. apply Forall_forall. intros v Hv. apply repeat_spec in Hv. now subst.
+Qed.
+
+Lemma tl_indices_lt m iter i : (0 < m)%nat -> In i (tl_indices m iter) -> (i < m)%nat.
+Proof.
+  intros Hm Hin. unfold tl_indices in Hin. apply in_map_iff in Hin. destruct Hin as [j [<- _]].
+  apply Nat.mod_upper_bound. lia.
+Qed.
+
+Lemma two_loops_length n m iter g rho dxh dgh al :
+  (0 < m)%nat -> length g = n -> hist n m dxh -> hist n m dgh ->
+  length (fst (two_loops ROps m iter g rho dxh dgh al)) = n.
+Proof.
+  intros Hm Hg Hx Hd. unfold two_loops.
+  assert (Hidx : forall i, In i (tl_indices m iter) -> (i < m)%nat) by (intros i; apply tl_indices_lt; exact Hm).
+  (* first loop *)
+  assert (H1 : forall idxs q al0, (forall i, In i idxs -> (i < m)%nat) -> length q = n ->
+               length (fst (fold_left (fun qa i =>
+                 let a := nth i rho (o0 ROps) * vdot ROps (nth i dxh []) (fst qa) in
+                 (vsub ROps (fst qa) (vscale ROps (nth i dgh []) a), upd (snd qa) i a)) idxs (q, al0))) = n).
+  { induction idxs as [|i idxs IH]; intros q al0 Hi Hq; cbn [fold_left]; [exact Hq|].
+    apply IH; [intros j Hj; apply Hi; right; exact Hj|]. cbn [fst].
+    rewrite vsub_length, vscale_length, (hist_nth n m dgh i Hd (Hi i (or_introl eq_refl))), Hq. lia. }
+  assert (H2 : forall idxs al0 s, (forall i, In i idxs -> (i < m)%nat) -> length s = n ->
+               length (fold_left (fun s i =>
+                 let beta := nth i rho (o0 ROps) * vdot ROps (nth i dgh []) s in
+                 vadd ROps s (vscale ROps (nth i dxh []) (nth i al0 (o0 ROps) - beta))) idxs s) = n).
+  { induction idxs as [|i idxs IH]; intros al0 s Hi Hs; cbn [fold_left]; [exact Hs|].
+    apply IH; [intros j Hj; apply Hi; right; exact Hj|].
+    rewrite vadd_length, vscale_length, (hist_nth n m dxh i Hx (Hi i (or_introl eq_refl))), Hs. lia. }
+  unfold tl_loop1, tl_loop2.
+  specialize (H1 (rev (tl_indices m iter)) g al (fun i Hi => Hidx i (proj2 (in_rev _ _) Hi)) Hg).
+  destruct (fold_left _ (rev (tl_indices m iter)) (g, al)) as [q al'] eqn:Eq. cbn [fst] in H1 |- *.
+  rewrite vscale_length. apply H2; [exact Hidx|].
+  destruct iter; [exact H1 | rewrite vscale_length; exact H1].
 Qed.
 
 (* ------------------------------------------------------------------ L-BFGS driver *)
@@ -121,85 +209,154 @@ Section Driver.
   Variable B : bt_params (T := R).
   Hypothesis Hc1 : 0 <= bt_c1 B.
   Hypothesis Hplo : 0 < bt_plo B.
+  Hypothesis Hm : (0 < lb_m L)%nat.
+  Hypothesis Hdf : forall x, length (df x) = length x.
 
-  (* the chain of recorded objective values: each step starts at the value the previous one ended with
-     and does not increase it *)
+  (* one recorded iteration (f before, df0, alpha, f after): it starts at some x, goes along some s of the same
+     dimension with df0 = <df x, s>, and either takes a positive step that satisfies the Armijo inequality or
+     stays where it is *)
+  Definition link (fp d a fn : R) : Prop :=
+    (exists x s, length s = length x /\ d = vdot ROps (df x) s /\ fp = f x /\ fn = f (vadd ROps x (vscale ROps s a))) /\
+    ((0 < a /\ fn <= fp + bt_c1 B * a * d) \/ (a = 0 /\ fn = fp)).
+
+  (* the chain of recorded objective values: each step starts at the value the previous one ended with *)
   Fixpoint trace_mono (fstart : R) (tr : list (R * R * R * R)) (fend : R) : Prop :=
     match tr with
     | [] => fstart = fend
-    | (fp, d, a, fn) :: rest => fp = fstart /\ 0 < a /\ fn <= fp + bt_c1 B * a * d /\ trace_mono fn rest fend
+    | (fp, d, a, fn) :: rest => fp = fstart /\ link fp d a fn /\ trace_mono fn rest fend
     end.
+  (* every step that moved went along a non-ascent direction *)
   Definition descent_trace (tr : list (R * R * R * R)) : Prop :=
-    Forall (fun s => snd (fst (fst s)) <= 0) tr.
+    Forall (fun s => 0 < snd (fst s) -> snd (fst (fst s)) <= 0) tr.
 
   Lemma trace_mono_le fstart tr fend : descent_trace tr -> trace_mono fstart tr fend -> fend <= fstart.
   Proof.
-    revert fstart. induction tr as [|[[[fp d] a] fn] rest IH]; intros fstart Hd Hm; cbn in Hm.
+    revert fstart. induction tr as [|[[[fp d] a] fn] rest IH]; intros fstart Hd Hmo; cbn in Hmo.
     - lra.
-    - destruct Hm as [-> [Ha [Hle Hrest]]]. inversion Hd as [|? ? Hd1 Hd2]; subst. cbn in Hd1.
-      pose proof (IH fn Hd2 Hrest).
+    - destruct Hmo as [-> [[_ Hl] Hrest]]. inversion Hd as [|? ? Hd1 Hd2]; subst. cbn in Hd1.
+      pose proof (IH fn Hd2 Hrest). destruct Hl as [[Ha Hle]|[_ ->]]; [|lra].
+      specialize (Hd1 Ha).
       assert (bt_c1 B * a * d <= 0) by (assert (0 <= bt_c1 B * a) by nra; nra). lra.
   Qed.
 
-  Lemma update_state_spec st st1 d0 :
-    update_state ROps f df L B st = Some (st1, d0) ->
-    st_f_prev st1 = f (st_x st) /\ st_f st1 = f (st_x st1) /\ 0 < st_alpha st1 /\
-    st_f st1 <= st_f_prev st1 + bt_c1 B * st_alpha st1 * d0.
+  (* dimension discipline and "the stored gradient is the gradient at the stored point" *)
+  Definition inv (n : nat) (st : lb_state) : Prop :=
+    length (st_x st) = n /\ st_g st = df (st_x st) /\ length (st_g_prev st) = n /\ length (st_dx st) = n /\
+    hist n (lb_m L) (st_dxh st) /\ hist n (lb_m L) (st_dgh st).
+
+  Lemma update_state_spec n st st1 d0 :
+    inv n st -> update_state ROps f df L B st = Some (st1, d0) ->
+    inv n st1 /\ st_f_prev st1 = f (st_x st) /\ st_f st1 = f (st_x st1) /\
+    link (st_f_prev st1) d0 (st_alpha st1) (st_f st1).
   Proof.
-    unfold update_state.
+    intros [Hx [Hg [Hgp [Hdx [Hhx Hhg]]]]]. unfold update_state.
+    pose proof (two_loops_length n (lb_m L) (st_iter st) (st_g st) (st_rho st) (st_dxh st) (st_dgh st) (st_tla st)
+                  Hm (eq_trans (f_equal (@length R) Hg) (eq_trans (Hdf _) Hx)) Hhx Hhg) as Hs.
     destruct (two_loops ROps (lb_m L) (st_iter st) (st_g st) (st_rho st) (st_dxh st) (st_dgh st) (st_tla st)) as [s al].
+    cbn [fst] in Hs.
     set (phi := fun a => f (vadd ROps (vscale ROps s a) (st_x st))).
     destruct (bt_search ROps B phi (o1 ROps) (f (st_x st)) (vdot ROps (st_g st) s)) as [[alpha fx]|] eqn:E; [|discriminate].
-    intros H; inversion H; subst; clear H. cbn [st_f_prev st_f st_x st_alpha].
-    destruct (backtracking_armijo B phi 1 (f (st_x st)) (vdot ROps (st_g st) s) alpha fx) as [Hfx [Hpos [Hle _]]];
+    intros H; injection H as <- <-. cbn [st_f_prev st_f st_x st_alpha].
+    destruct (backtracking_armijo B phi 1 (f (st_x st)) (vdot ROps (st_g st) s) alpha fx) as [Hcase _];
       [lra | exact Hplo | exact E |].
-    repeat split; try assumption.
-    rewrite vadd_comm_R. fold (phi alpha). rewrite <- Hfx. exact Hle.
+    assert (Hx' : length (vadd ROps (st_x st) (vscale ROps s alpha)) = length (st_x st))
+      by (rewrite vadd_length, vscale_length, Hs; lia).
+    split.
+    { unfold inv. cbn [st_x st_g st_g_prev st_dx st_dxh st_dgh].
+      split; [rewrite Hx'; exact Hx|]. split; [reflexivity|]. split; [rewrite Hdf; exact Hx|].
+      split; [rewrite vscale_length; exact Hs|]. split; assumption. }
+    split; [reflexivity|]. split; [reflexivity|]. split.
+    - exists (st_x st), s. repeat split; try reflexivity; [lia | rewrite Hg; reflexivity].
+    - destruct Hcase as [[Hpos [Hfx Hle]]|[Ha0 Hf0]].
+      + left. split; [exact Hpos|]. rewrite vadd_comm_R. fold (phi alpha). rewrite <- Hfx. exact Hle.
+      + right. split; [exact Ha0|]. subst alpha. rewrite vadd_zero_step by lia. reflexivity.
   Qed.
 
-  Lemma assess_keeps st : st_x (snd (assess_convergence ROps L st)) = st_x st.
-  Proof. reflexivity. Qed.
-  Lemma hessian_keeps st : st_x (update_hessian ROps L st) = st_x st.
-  Proof. unfold update_hessian. destruct (is_infinite _ _); reflexivity. Qed.
+  Lemma assess_keeps n st : inv n st -> inv n (snd (assess_convergence ROps L st)) /\
+                            st_x (snd (assess_convergence ROps L st)) = st_x st.
+  Proof. intros H. split; [exact H | reflexivity]. Qed.
+  Lemma hessian_keeps n st : inv n st -> inv n (update_hessian ROps L st) /\ st_x (update_hessian ROps L st) = st_x st.
+  Proof.
+    intros [Hx [Hg [Hgp [Hdx [Hhx Hhg]]]]]. unfold update_hessian.
+    destruct (is_infinite _ _); [split; [unfold inv; repeat (split; [assumption|]); assumption | reflexivity]|].
+    split; [|reflexivity]. unfold inv. cbn [st_x st_g st_g_prev st_dx st_dxh st_dgh].
+    repeat (split; [assumption|]). split.
+    - apply hist_upd; [exact Hhx | exact Hdx].
+    - apply hist_upd; [exact Hhg|]. rewrite vsub_length, Hg, Hdf, Hx, Hgp. lia.
+  Qed.
+  Lemma bump_keeps n st : inv n st -> inv n (bump_iter st).
+  Proof. intros H. exact H. Qed.
 
-  Lemma opt_loop_mono fuel : forall st acc st' tr conv,
+  Lemma opt_loop_mono n fuel : forall st acc st' tr conv,
+    inv n st ->
     opt_loop ROps f df L B fuel st acc = Some (st', tr, conv) ->
     exists suffix, tr = rev acc ++ suffix /\ trace_mono (f (st_x st)) suffix (f (st_x st')).
   Proof.
-    induction fuel as [|k IH]; intros st acc st' tr conv E; cbn [opt_loop] in E.
+    induction fuel as [|k IH]; intros st acc st' tr conv Hinv E; cbn [opt_loop] in E.
     - inversion E; subst. exists []. rewrite app_nil_r. split; reflexivity.
     - destruct (update_state ROps f df L B st) as [[st1 d0]|] eqn:Eu; [|discriminate].
-      destruct (update_state_spec st st1 d0 Eu) as [H1 [H2 [H3 H4]]].
+      destruct (update_state_spec n st st1 d0 Hinv Eu) as [Hinv1 [H1 [H2 Hl]]].
       destruct (assess_convergence ROps L st1) as [c st2] eqn:Ea.
-      assert (Hx2 : st_x st2 = st_x st1) by (change st2 with (snd (c, st2)); rewrite <- Ea; apply assess_keeps).
+      destruct (assess_keeps n st1 Hinv1) as [Hinv2 Hx2]. rewrite Ea in Hinv2, Hx2. cbn [snd] in Hinv2, Hx2.
       destruct c.
       + inversion E; subst. exists [(st_f_prev st1, d0, st_alpha st1, st_f st1)]. cbn [rev]. split; [reflexivity|].
-        cbn. repeat split; try assumption. rewrite H2. cbn. rewrite Hx2. reflexivity.
-      + destruct (IH _ _ _ _ _ E) as [suf [Htr Hm]].
+        cbn. repeat split; try assumption; try apply Hl. rewrite H2. cbn. rewrite Hx2. reflexivity.
+      + destruct (hessian_keeps n st2 Hinv2) as [Hinv3 Hx3].
+        destruct (IH _ _ _ _ _ (bump_keeps n _ Hinv3) E) as [suf [Htr Hmo]].
         exists ((st_f_prev st1, d0, st_alpha st1, st_f st1) :: suf). split.
         * rewrite Htr. cbn [rev]. rewrite <- app_assoc. reflexivity.
-        * cbn. repeat split; try assumption.
-          replace (f (st_x (bump_iter (update_hessian ROps L st2)))) with (st_f st1) in Hm; [exact Hm|].
-          rewrite H2. cbn [bump_iter st_x]. rewrite hessian_keeps, Hx2. reflexivity.
+        * cbn. repeat split; try assumption; try apply Hl.
+          replace (f (st_x (bump_iter (update_hessian ROps L st2)))) with (st_f st1) in Hmo; [exact Hmo|].
+          rewrite H2. cbn [bump_iter st_x]. rewrite Hx3, Hx2. reflexivity.
   Qed.
 
-  (* lbfgs_monotone: for every objective f (differentiable or not), every "gradient" function df, every
-     parameter setting: if the optimiser returns (the line search never hit its iteration limit), its
-     recorded trace is a chain from f(x0) to f(returned x) in which every step satisfies the Armijo
-     inequality at a positive step length; so along any run in which every direction was a descent
-     direction (df0 <= 0 in each recorded step) the objective never increases, and the returned point is
-     no worse than the start. *)
+  (* lbfgs_monotone: for every objective f (differentiable or not), every function df that returns vectors of
+     the dimension of its argument, every parameter setting with m > 0: if the optimiser returns, its recorded
+     trace is a chain from f(x0) to f(returned x) in which every step either satisfies the Armijo inequality at
+     a positive step length or stays where it is; so along any run in which every step that moved went along
+     a non-ascent direction the objective never increases, and the returned point is no worse than the start. *)
   Lemma lbfgs_monotone x0 st tr conv :
     optimize ROps f df L B x0 = Some (st, tr, conv) ->
     trace_mono (f x0) tr (f (st_x st)) /\ (descent_trace tr -> f (st_x st) <= f x0).
   Proof.
     unfold optimize. cbn [init_state st_x st_x_prev st_f st_f_prev st_g_prev st_rho st_dxh st_dgh st_dx st_tla st_s st_alpha].
     intros E.
-    assert (Hm : trace_mono (f x0) tr (f (st_x st))).
+    assert (Hmo : trace_mono (f x0) tr (f (st_x st))).
     { destruct (oltb ROps _ _) in E.
       - inversion E; subst. reflexivity.
-      - destruct (opt_loop_mono _ _ _ _ _ _ E) as [suf [Htr Hm]]. cbn in Htr. subst. exact Hm. }
-    split; [exact Hm|]. intros Hd. eapply trace_mono_le; eassumption.
+      - assert (Hinv : inv (length x0)
+                 (mkSt x0 x0 (nan ROps) (nan ROps) (df x0) x0 (repeat (o0 ROps) (lb_m L)) (repeat x0 (lb_m L))
+                       (repeat x0 (lb_m L)) x0 (repeat (o0 ROps) (lb_m L)) 0%nat 0%nat x0 (o1 ROps))).
+        { unfold inv. cbn [st_x st_g st_g_prev st_dx st_dxh st_dgh].
+          repeat (split; [reflexivity|]). split; apply hist_repeat; reflexivity. }
+        destruct (opt_loop_mono (length x0) _ _ _ _ _ _ Hinv E) as [suf [Htr Hmo]]. cbn in Htr. subst. exact Hmo. }
+    split; [exact Hmo|]. intros Hd. eapply trace_mono_le; eassumption.
+  Qed.
+
+  (* the convex route: if f lies above its tangents (with df as the slope) and c1 < 1, then a positive step that
+     passes the Armijo test can only have been taken along a non-ascent direction — so the descent hypothesis
+     holds on EVERY returned run and the objective never increases, whatever the two-loop recursion produced *)
+  Hypothesis Hc1lt : bt_c1 B < 1.
+  Hypothesis Hconv : forall x s a, length s = length x ->
+    f x + a * vdot ROps (df x) s <= f (vadd ROps x (vscale ROps s a)).
+
+  Lemma trace_mono_descent fstart tr fend : trace_mono fstart tr fend -> descent_trace tr.
+  Proof.
+    revert fstart. induction tr as [|[[[fp d] a] fn] rest IH]; intros fstart Hmo; [constructor|].
+    cbn in Hmo. destruct Hmo as [_ [[[x [s [Hls [Hd [Hfp Hfn]]]]] Hl] Hrest]].
+    constructor; [|eapply IH; exact Hrest]. cbn. intros Ha.
+    destruct Hl as [[_ Hle]|[Ha0 _]]; [|lra].
+    pose proof (Hconv x s a Hls) as Hc. rewrite <- Hd, <- Hfp, <- Hfn in Hc.
+    assert ((1 - bt_c1 B) * (a * d) <= 0) by lra.
+    assert (a * d <= 0) by nra. nra.
+  Qed.
+
+  Lemma lbfgs_monotone_convex x0 st tr conv :
+    optimize ROps f df L B x0 = Some (st, tr, conv) ->
+    descent_trace tr /\ f (st_x st) <= f x0.
+  Proof.
+    intros E. destruct (lbfgs_monotone x0 st tr conv E) as [Hmo Hle].
+    pose proof (trace_mono_descent _ _ _ Hmo) as Hd. split; [exact Hd | exact (Hle Hd)].
   Qed.
 End Driver.
 
